@@ -14,6 +14,7 @@ from fim.slivers.topology_diff import WhatsModifiedFlag
 LAB = {"L1": dict(vlan="100"), "L2": dict(vlan="200"), "L3": dict(local_name="x")}
 CAP = {"C1": dict(core=1), "C2": dict(core=2, ram=4)}
 UD = {"U1": {"k": 1, "l": ["a"]}, "U2": {"k": 2}}
+UD_TEXT = {"U1s": '{"l":["a"],   "k":1}'}                  # the value U1 as JSON text in another layout
 
 
 def set_p(sl, which, v):
@@ -22,7 +23,10 @@ def set_p(sl, which, v):
     elif which == "caps":
         sl.set_capacities(Capacities(**CAP[v]) if v else None)
     else:
-        sl.set_user_data(UserData(copy.deepcopy(UD[v])) if v else None)     # a NEW, equal-valued object every time
+        if v in UD_TEXT:
+            sl.set_user_data(UserData(UD_TEXT[v]))
+        else:
+            sl.set_user_data(UserData(copy.deepcopy(UD[v])) if v else None)     # a NEW, equal-valued object every time
 
 
 def get_p(sl):
@@ -35,7 +39,8 @@ def get_p(sl):
         return "?"
     return {"labels": name(sl.get_labels(), LAB, lambda x: Labels(**x).to_dict() if isinstance(x, dict) else x.to_dict()),
             "caps": name(sl.get_capacities(), CAP, lambda x: Capacities(**x).to_dict() if isinstance(x, dict) else x.to_dict()),
-            "ud": name(sl.get_user_data(), UD, lambda x: x if isinstance(x, dict) else x.data)}
+            "ud": ("U1s" if sl.get_user_data() is not None and sl.get_user_data().json == UD_TEXT["U1s"]
+                   else name(sl.get_user_data(), UD, lambda x: x if isinstance(x, dict) else x.data))}
 
 
 def apply_p(sl, p):
